@@ -100,7 +100,7 @@ def gen_cases(ctx, n_per_kind):
             # odd and even square stamps (an even stamp is centred on its geometric centre, between pixels)
             j = (i + (i // 5)) % 5
             if kind == "pixel" and j in (2, 4):
-                j -= 2                # the 2 % pixel tolerance is calibrated on stamps that need no half-pixel shift (odd sizes)
+                j = {2: 0, 4: 1}[j]   # the 2 % pixel tolerance is calibrated on stamps that need no half-pixel shift (odd sizes)
             psf = [RC.gauss_psf(11, float(rng.uniform(1.1, 1.6))), RC.smooth_asym_psf(rng, 11), RC.gauss_psf(12, float(rng.uniform(1.1, 1.6))),
                    RC.gauss_psf(13, 1.3, q=0.85), RC.smooth_asym_psf(rng, 12)][j]
             nr = (0.8, 2.5) if kind == "pixel" else (0.8, 6.0)
@@ -123,10 +123,12 @@ def gen_cases(ctx, n_per_kind):
                         p[k] = float(rng.uniform(1.5, 2.0))
                     if k.startswith("n"):
                         p[k] = float(rng.uniform(2.0, 2.5))
+                    if k.startswith("ellip"):
+                        p[k] = float(rng.uniform(0.0, 0.15))       # minor axis ≥ 1 px: the pixel next to the box is point-sampled
                 side = [1, -1][(i // 3) % 2]
                 u = float(rng.uniform(4.0, 4.5))            # 4.5 … 5 px from the image centre (N−1)/2, still one pixel inside the box
                 off = u if side > 0 else -1.0 - u
-                p["xc"], p["yc"] = N2 // 2 + off, N2 // 2 + off
+                p["xc"], p["yc"] = N2 // 2 + off, float(N2 // 2 + rng.uniform(-2.5, 1.5))     # one coordinate near the edge, not the corner
             sc = RC.cast32_scene(sc)
             sc["gaussian_psf"] = j in (0, 2, 3)
             cases.append(sc)
@@ -283,6 +285,24 @@ def oracle_child(payload):
                 tm, tl = 0.12, 0.10
             else:
                 tm, tl = 0.18, 0.15
+            if not (dmax <= tm and l1 <= tl) and kind == "pixel" and t not in ("pointsource",):
+                # the design limit C01 records as well: pixels outside the central box are point-sampled; a component whose minor axis is
+                # below a pixel and whose half-light ellipse reaches outside the box is mis-rendered there
+                os_ = int(sc["os"])
+                lo_b, hi_b = N // 2 - os_ - 0.5, N // 2 + os_ - 0.5
+                tr_ = P["theta"] + np.pi / 2
+                beyond = False
+                for cmp_ in (RC.extended_components(t, P) if t != "sersic_pointsource" else RC.extended_components("sersic", dict(P, flux=P["flux"] * (1 - P["f_ps"])))):
+                    a_, b_ = cmp_["r_eff"], (1 - cmp_["ellip"]) * cmp_["r_eff"]
+                    ex = np.hypot(a_ * np.cos(tr_), b_ * np.sin(tr_))
+                    ey = np.hypot(a_ * np.sin(tr_), b_ * np.cos(tr_))
+                    if b_ < 1.0 and (P["xc"] - ex < lo_b or P["xc"] + ex > hi_b or P["yc"] - ey < lo_b or P["yc"] + ey > hi_b):
+                        beyond = True
+                if beyond:
+                    fails.append(("vs-truth-subpixel-minor-axis-beyond-box", f"max|diff| = {dmax:.3%} of the reference peak, L1 = {l1:.3%} of the total (tolerances {tm:.0%} / {tl:.0%}); "
+                                  f"minor axis below 1 px and the half-light ellipse reaches outside the oversampled box"))
+                    out.append(dict(fails=fails))
+                    continue
             if not (dmax <= tm and l1 <= tl):
                 fails.append(("vs-truth", f"max|diff| = {dmax:.3%} of the reference peak, L1 = {l1:.3%} of the total (tolerances {tm:.0%} / {tl:.0%}; n = {[round(x, 2) for x in ns]})"))
             if kind == "hybrid" and abs(P["xc"] - (N - 1) / 2) <= 5 and abs(P["yc"] - (N - 1) / 2) <= 5 and payload.get("hvf", True):
